@@ -464,3 +464,39 @@ SPECS["C15"] = Spec(
     bounds=lambda tier: {"middleware_before_recovery": "0..2", "pass_through_depth": "0..2 quick / 0..3 thorough", "earlier_status": "[100,999] symbolic", "env": "dev/prod/test"},
     rule="every combination of panic kind, phase, earlier status, environment and nesting style; non-trivial when the panic crosses at least one frame",
 )
+
+
+# --------------------------------------------------------------------------- C04
+C04_SIGS = ["", "0", "1", "2", "3", "4", "5", "6", "0,5", "5,1", "5,6", "2,3", "6,2", "4,4"]
+
+
+def c04_jobs(tier, seed):
+    jobs = []
+    impl_sets = {"5": ["7,9", "6,8"], "6": ["8"], "0,5": ["7,8"], "5,1": ["9"], "5,6": ["8"], "6,2": ["8"]}
+    for sig in C04_SIGS:
+        for scopes in ((2,) if tier == "quick" else (1, 2, 3)):
+            for impls in impl_sets.get(sig, [""]):
+                if impls and scopes == 3 and tier != "thorough":
+                    continue
+                for fast in (0, 1):
+                    if fast == 1 and sig not in ("0,5", "5", "2,3"):
+                        continue
+                    jobs.append({"pkg_short": "inject", "body": "VH_C04_invoke", "max_paths": 400000,
+                                 "params": {"sig": sig, "scopes": scopes, "fast": fast, "impls": impls,
+                                            "maporders": 1 if impls else 0}})
+    jobs.append({"pkg_short": "inject", "body": "VH_C04_apply", "params": {"scopes": 2, "impls": "7"}, "max_paths": 400000})
+    return jobs
+
+
+SPECS["C04"] = Spec(
+    "C04", ["inject/c04.go"], c04_jobs,
+    assumptions=[
+        "real inject.New/Map/MapTo/Set/SetParent/Value/Invoke/fastInvoke/callInvoke/Apply/InterfaceOf/IsFastInvoker executed; reflect is the interpreter's shim answered from go/types (TypeOf, ValueOf, Kind, NumIn, In, Implements, Call, Field, Tag, CanSet, Set)",
+        "type universe declared in the harness: struct, pointer, named string, named int, chan int (Set), interfaces I and J (J's method set includes I's), three implementors (value and pointer receivers)",
+        "registrations: per scope and per universe type relevant to the asked signature, presence symbolic, optionally re-registered; irrelevant registrations present in every scope",
+        "map iteration order inside Value() is explored (all orders up to 3 entries, two orders above) for interface parameters; the oracle accepts any implementor registered in the nearest scope that has one",
+        "fmt.Errorf is the interpreter's formatter (the error text's type name is printed with go/types' TypeString)",
+    ],
+    bounds=lambda tier: {"scopes": "2 (quick) / 1..3 (thorough)", "arity": "0..2", "signatures": C04_SIGS},
+    rule="one job per (signature, scope count, plain/fast); all registration assignments relevant to the signature",
+)
